@@ -65,7 +65,12 @@ struct P {
     P(int k, int s, int p) : key(k), seq(s), pos(p) {}
 };
 static_assert(std::is_trivially_copyable<P>::value, "P must be trivially copyable");
-struct ByKey { template <class T> bool operator()(const T& a, const T& b) const { return a.key < b.key; } };
+// the comparator has unsynchronised per-instance state (a call counter), as the by-value comparator interface
+// allows: correct code hands every thread its own copies; one instance called from two threads is a data race
+struct ByKey {
+    mutable uint64_t calls = 0;
+    template <class T> bool operator()(const T& a, const T& b) const { ++calls; return a.key < b.key; }
+};
 // both have an operator< on purpose, and it is the OPPOSITE of the comparator the merge is called with:
 // code that falls back to operator< instead of the user's comparator shows at once
 inline bool operator<(const E& a, const E& b) { return a.key > b.key; }
@@ -104,7 +109,7 @@ void run(const Workload& w, Result& res) {
     const bool sampling = sim::modn(sim::cfg_at(w, C_MWMSA), 2) == 1;
     const auto mwmsa = sampling ? tlx::MWMSA_SAMPLING : tlx::MWMSA_EXACT;
     int64_t tv = sim::modn(sim::cfg_at(w, C_THREADS), 9);
-    const size_t threads = size_t(tv >= 8 ? 32 : 1 + tv);
+    const size_t threads = size_t(tv >= 8 ? 32 : 1 + tv);   // (C07 is quantified over 1..32 threads)
     tlx::parallel_multiway_merge_oversampling = size_t(1 + sim::modn(sim::cfg_at(w, C_OVERSAMPLE), 4));
     const bool sentinels = entry >= 4;
     const bool stable = entry == 1 || entry == 3 || entry == 5;
